@@ -344,6 +344,37 @@ func installStringModels(m *Machine) {
 		}
 		return []Val{&TupleV{E: []Val{n, nilV{}}}}, true
 	}
+	m.Hooks["strconv.ParseUint"] = func(m *Machine, st *State, call *ssa.CallCommon, args []Val) ([]Val, bool) {
+		s, ok := args[0].(string)
+		base, ok1 := args[1].(int64)
+		bits, ok2 := args[2].(int64)
+		if !ok || !ok1 || !ok2 {
+			return nil, false
+		}
+		n, err := strconv.ParseUint(s, int(base), int(bits))
+		if err != nil {
+			return []Val{&TupleV{E: []Val{int64(n), IfaceV{T: errT, V: "syntax"}}}}, true
+		}
+		return []Val{&TupleV{E: []Val{int64(n), nilV{}}}}, true
+	}
+	m.Hooks["strconv.ParseBool"] = func(m *Machine, st *State, call *ssa.CallCommon, args []Val) ([]Val, bool) {
+		s, ok := args[0].(string)
+		if !ok {
+			return nil, false
+		}
+		b, err := strconv.ParseBool(s)
+		if err != nil {
+			return []Val{&TupleV{E: []Val{false, IfaceV{T: errT, V: "syntax"}}}}, true
+		}
+		return []Val{&TupleV{E: []Val{b, nilV{}}}}, true
+	}
+	m.Hooks["strconv.FormatBool"] = func(m *Machine, st *State, call *ssa.CallCommon, args []Val) ([]Val, bool) {
+		b, ok := args[0].(bool)
+		if !ok {
+			return nil, false
+		}
+		return []Val{strconv.FormatBool(b)}, true
+	}
 	m.Hooks["fmt.Errorf"] = func(m *Machine, st *State, call *ssa.CallCommon, args []Val) ([]Val, bool) {
 		return []Val{IfaceV{T: errT, V: "error"}}, true
 	}
